@@ -24,7 +24,7 @@ Starts(E, n)   == {i \in Idx(E) : E[i].k \in StartKinds /\ E[i].n = n}
 (* finished by returning or raising (not by cancellation) *)
 Fins(E, n)     == {i \in Idx(E) : E[i].n = n /\ (E[i].k \in {"end", "raise", "run-end"} \/ (E[i].k = "run-exc" /\ E[i].v = "exc"))}
 (* the body is over, whatever the way *)
-Overs(E, n)    == Fins(E, n) \cup {i \in Idx(E) : E[i].n = n /\ (E[i].k \in {"cancel-done", "cancel-raise"} \/ (E[i].k = "run-exc" /\ E[i].v = "cancelled"))}
+Overs(E, n)    == Fins(E, n) \cup {i \in Idx(E) : E[i].n = n /\ (E[i].k \in {"cancel-done", "cancel-raise", "self-cancel"} \/ (E[i].k = "run-exc" /\ E[i].v = "cancelled"))}
 Failed(E, n)   == {i \in Idx(E) : E[i].n = n /\ (E[i].k = "raise" \/ (E[i].k = "run-exc" /\ E[i].v = "exc"))}
 StartPos(E, n) == IF Starts(E, n) = {} THEN 0 ELSE MinOf(Starts(E, n))
 FinPos(E, n)   == IF Fins(E, n) = {} THEN 0 ELSE MinOf(Fins(E, n))
